@@ -43,6 +43,12 @@ def norm(e):
                 return a
             if a == const(0):
                 return b
+            # (x + c1) + c2  ->  x + (c1 + c2)
+            for x, c in ((a, b), (b, a)):
+                if c[0] == "const" and x[0] == "add":
+                    for y, d in ((x[1], x[2]), (x[2], x[1])):
+                        if d[0] == "const":
+                            return norm(("add", y, const(_wrap(c[1] + d[1]))))
         return (e[0],) + tuple(sorted([a, b], key=repr))
     if e[0] == "sub":
         a, b = norm(e[1]), norm(e[2])
@@ -52,6 +58,8 @@ def norm(e):
             return ("addr", a[1], a[2] - b[1])
         if b == const(0):
             return a
+        if b[0] == "const":
+            return norm(("add", a, const(_wrap(-b[1]))))
         # a - (a sdiv d) * d  ==  a srem d   (AArch64 SDIV + MSUB)
         if b[0] == "mul":
             for q, d in ((b[1], b[2]), (b[2], b[1])):
@@ -108,8 +116,24 @@ class Machine:
         self.regs[name] = norm(e)
         self.written_regs.append(name)
 
+    def clone(self):
+        m = Machine.__new__(Machine)
+        m.arch = self.arch
+        m.regs = dict(self.regs)
+        m.mem = dict(self.mem)
+        m.flags = self.flags
+        m.events = list(self.events)
+        m.written_regs = list(self.written_regs)
+        m.written_mem = list(self.written_mem)
+        m.errors = list(self.errors)
+        return m
+
     def addr(self, base, off):
         b = self.r(base)
+        return self.addr_of(b, off)
+
+    def addr_of(self, b, off):
+        """cell key for the address `b + off` where b is a value expression"""
         o = off if isinstance(off, int) else None
         if b[0] == "addr" and o is not None:
             return (b[1], b[2] + o)
@@ -125,6 +149,20 @@ class Machine:
 
     def store(self, base, off, e):
         a = self.addr(base, off)
+        self.mem[a] = norm(e)
+        self.written_mem.append(a)
+
+    def cell(self, a):
+        """current contents of the cell with key a (lazily named like `load` names it)"""
+        if a not in self.mem:
+            self.mem[a] = var("mem:%s%+d" % a if isinstance(a[1], int) else "mem:%s+%s" % a)
+        return self.mem[a]
+
+    def load_at(self, b, off):
+        return self.cell(self.addr_of(b, off))
+
+    def store_at(self, b, off, e):
+        a = self.addr_of(b, off)
         self.mem[a] = norm(e)
         self.written_mem.append(a)
 
@@ -452,3 +490,137 @@ def run(ctx, arch, codes, machine=None):
         variant, mn, ops = operands(ctx, arch, c)
         (step_x86 if arch == "x86_64" else step_a64)(m, variant, mn, ops)
     return m
+
+
+# ---------------- branching exploration ----------------
+class SpecNeeds(Exception):
+    """the reference semantics needs a condition the explored path never tested"""
+
+    def __init__(self, e):
+        Exception.__init__(self, show(e))
+        self.expr = e
+
+
+def fact_key(e):
+    return repr(norm(e))
+
+
+def is_zero(facts, e):
+    """True / False / None (unknown on this path)"""
+    e = norm(e)
+    if e[0] == "const":
+        return e[1] == 0
+    if e[0] == "addr":
+        return False
+    return facts.get(fact_key(e))
+
+
+def _cmp_consts(cc, a, b):
+    return {"Equal": a == b, "NotEqual": a != b, "Less": a < b, "LessOrEqual": a <= b, "Greater": a > b, "GreaterOrEqual": a >= b}[cc]
+
+
+def _decide(cc, flags, facts):
+    """(verdict, fact key, value-if-taken)"""
+    if not flags or flags[0] != "cmp":
+        return None, ("flags", repr(flags), cc), True
+    a, b = flags[1], flags[2]
+    if a[0] == "const" and b[0] == "const":
+        return _cmp_consts(cc, a[1], b[1]), None, None
+    if cc in ("Equal", "NotEqual"):
+        d = norm(("sub", a, b)) if b != const(0) else a
+        z = is_zero(facts, d)
+        if z is not None:
+            return (z if cc == "Equal" else not z), None, None
+        return None, fact_key(d), (cc == "Equal")
+    k = ("cc", cc, repr(a), repr(b))
+    if k in facts:
+        return facts[k], None, None
+    return None, k, True
+
+
+def _label_str(v):
+    return v if isinstance(v, str) else repr(v)
+
+
+def explore(ctx, arch, codes, m0, max_paths=4000, facts0=None):
+    """run a list with local labels and conditional jumps on every feasible path.
+    Yields (machine, facts, exit) with exit in {'end', ('label', L)}; returns at most max_paths paths and sets
+    explore.truncated when the cap cut the enumeration."""
+    labels = {}
+    for i, c in enumerate(codes):
+        if isinstance(c, Adt) and c.variant == "LAB":
+            labels[_label_str(c.fields.get("0"))] = i
+    out = []
+    truncated = False
+    stack = [(0, m0, dict(facts0 or {}))]
+    steps = 0
+    while stack:
+        if len(out) >= max_paths:
+            truncated = True
+            break
+        # alternate between the newest and the oldest pending fork so that a capped enumeration is spread over the tree
+        pc, m, facts = stack.pop() if len(out) % 2 == 0 else stack.pop(0)
+        while True:
+            if pc >= len(codes):
+                out.append((m, facts, "end"))
+                break
+            c = codes[pc]
+            pc += 1
+            steps += 1
+            if steps > 5_000_000:
+                raise AnalysisError("explore: step budget exceeded")
+            if not isinstance(c, Adt):
+                m.errors.append("non-instruction in emission list: %r" % (c,))
+                continue
+            if c.variant in ("COMMENT", "LAB"):
+                continue
+            n_ev = len(m.events)
+            if arch == "rv64":
+                step_rv(m, c.variant, rv_operands(c))
+            else:
+                variant, mn, ops = operands(ctx, arch, c)
+                (step_x86 if arch == "x86_64" else step_a64)(m, variant, mn, ops)
+            if len(m.events) == n_ev:
+                continue
+            ev = m.events[-1]
+            if ev[0] == "jcc":
+                m.events.pop()
+                _, cc, flags, label = ev
+                tgt = labels.get(_label_str(label))
+                verdict, key, val_taken = _decide(cc, flags, facts)
+                if verdict is None:
+                    # fork: the not-taken side continues here, the taken side is pushed
+                    m2 = m.clone()
+                    f2 = dict(facts)
+                    f2[key] = val_taken
+                    facts = dict(facts)
+                    facts[key] = not val_taken
+                    if tgt is None:
+                        out.append((m2, f2, ("label", _label_str(label))))
+                    else:
+                        stack.append((tgt, m2, f2))
+                elif verdict:
+                    if tgt is None:
+                        out.append((m, facts, ("label", _label_str(label))))
+                        break
+                    pc = tgt
+            elif ev[0] == "jmp":
+                op = ev[1]
+                if isinstance(op, tuple) and op[0] == "label":
+                    m.events.pop()
+                    tgt = labels.get(_label_str(op[1]))
+                    if tgt is None:
+                        out.append((m, facts, ("label", _label_str(op[1]))))
+                        break
+                    pc = tgt
+                else:
+                    out.append((m, facts, ("jump", ev[2])))
+                    break
+            elif ev[0] == "ret":
+                out.append((m, facts, "ret"))
+                break
+    explore.truncated = truncated
+    return out
+
+
+explore.truncated = False
